@@ -13,8 +13,16 @@
 (*  spsend {inputs[{d,taproot}], outpoints[], rs[{scan,spend}], outs[]}    *)
 (*  spscan {bscan, bspend, labels[], inputs pub sum a: point, outpoints[], *)
 (*          outs[], found[{o,t}]}                                          *)
+(*  psbtmusig {way: output|internal|derived|leaf, pks[], agg, internal,     *)
+(*          root, path[int], spent_key, pubnonces[], psigs[], verifies[],   *)
+(*          msg, r, s, accepted}   a BIP373 session run over a psbt: how    *)
+(*          the aggregate key reaches the key being spent is re-derived     *)
+(*          here from what the psbt says (BIP341 tweak, BIP328 derivation)  *)
+(*  ring   {msg, rings[[sec]], e0, s[[nat]], out}   borromean.verify         *)
+(*  commit {r, v, out: point | refused: bool}   pedersen.commit             *)
+(*  secondgen {out: point}                      pedersen.second_generator   *)
 (***************************************************************************)
-EXTENDS TwoParty, EvBase
+EXTENDS TwoParty, RingSig, EvBase
 
 HX(s) == FromHex(s)
 Tweaks(e) == [j \in 1..Len(e.tweaks) |-> <<N(e.tweaks[j].t), e.tweaks[j].x>>]
@@ -30,9 +38,40 @@ MusigOK(e) ==
        ELSE LET s2 == Adapt(K1, ses, agg[2], N(e.adaptor)) IN
               /\ s2 = N(e.adapted_s) /\ Verify(K1, S256, ses.Q.x, HX(e.msg), agg[1], s2) /\ e.adapted_valid
               /\ Extract(K1, ses, s2, agg[2]) = N(e.adaptor) /\ N(e.extracted) = N(e.adaptor)
+\* BIP328: the aggregate key is the public key of a synthetic xpub with a fixed chain code; each unhardened step adds IL*G
+Bip328Chain == FromHex("868087ca02a6f974c4598924c36b57762d32cb45717167e300622c7167e38965")
+RECURSIVE Bip328Tweaks(_, _, _, _)
+Bip328Tweaks(K, chain, path, j) ==
+  IF j > Len(path) THEN << >>
+  ELSE LET I == HMAC(HF("sha512"), chain, CBytes(K1, K) \o BToBytes(BFromInt(path[j]), 4))
+           il == BFromBytes(SubSeq(I, 1, 32)) IN
+         <<<<il, FALSE>>>> \o Bip328Tweaks(ECR!Add(K1, K, RMulG(K1, il)), SubSeq(I, 33, 64), path, j + 1)
+PsbtTweaks(e) ==
+  LET agg == KeyAgg(K1, S256, Pks(e)).Q
+      tap(x) == <<BFromBytes(TaggedHash("TapTweak", x \o HX(e.root))), TRUE>> IN
+  CASE e.way = "output" -> << >>
+    [] e.way = "leaf" -> << >>
+    [] e.way = "internal" -> <<tap(XBytes(K1, agg.x))>>
+    [] e.way = "derived" -> Bip328Tweaks(agg, Bip328Chain, e.path, 1) \o <<tap(HX(e.internal))>>
+PsbtSes(e) == Session(K1, S256, Pks(e), PsbtTweaks(e), NonceAgg(K1, Nonces(e)), ECR!Inf, HX(e.msg))
+PsbtMusigOK(e) ==
+  LET ses == PsbtSes(e)  psigs == [j \in 1..Len(e.psigs) |-> N(e.psigs[j])]  agg == PartialAgg(K1, ses, psigs) IN
+    /\ CBytes(K1, KeyAgg(K1, S256, Pks(e)).Q) = HX(e.agg)
+    /\ ses.ok /\ XBytes(K1, ses.Q.x) = HX(e.spent_key)
+    /\ e.way = "derived" => LET tw == PsbtTweaks(e)  ctx == KeyAggTweaked(K1, S256, Pks(e), SubSeq(tw, 1, Len(tw) - 1)) IN XBytes(K1, ctx.Q.x) = HX(e.internal)
+    /\ \A j \in 1..Len(psigs) : PartialVerify(K1, S256, Pks(e), ses, psigs[j], Nonces(e)[j], Pks(e)[j]) /\ e.verifies[j]
+    /\ agg[1] = N(e.r) /\ agg[2] = N(e.s)
+    /\ Verify(K1, S256, ses.Q.x, HX(e.msg), agg[1], agg[2])
+    /\ e.accepted
+RingsOf(e) == [a \in 1..Len(e.rings) |-> [b \in 1..Len(e.rings[a]) |-> PointOf(HX(e.rings[a][b]))]]
+RingOut(e) == Verify1(K1, S256, HX(e.msg), HX(e.e0), [a \in 1..Len(e.s) |-> [b \in 1..Len(e.s[a]) |-> N(e.s[a][b])]], RingsOf(e))
 RsOf(e) == [j \in 1..Len(e.rs) |-> [scan |-> PointOf(HX(e.rs[j].scan)), spend |-> PointOf(HX(e.rs[j].spend))]]
 Check(e) ==
   CASE e.op = "musig" -> MusigOK(e)
+    [] e.op = "psbtmusig" -> PsbtMusigOK(e)
+    [] e.op = "ring" -> e.out = RingOut(e)
+    [] e.op = "commit" -> LET cm == Commit(K1, S256, N(e.r), N(e.v)) IN IF e.refused THEN ~cm.ok ELSE cm.ok /\ cm.Q = PtOf(e.out)
+    [] e.op = "secondgen" -> SecondGenerator(K1, S256) = PtOf(e.out)
     [] e.op = "dh" -> LET r == DhKey(K1, HF(e.hf), N(e.d), PtOf(e.q), e.size, HX(e.info)) IN
                         IF r[1] = "refused" THEN e.out = "refused" ELSE e.out = ToHex(r[2])
     [] e.op = "bie1" -> Bie1Keys(N(e.d), PtOf(e.q)) = <<HX(e.iv), HX(e.ke), HX(e.km)>>
@@ -52,6 +91,11 @@ Diag == i > 0 => PrintT(<<"DIAG", i, <<Trace[i].op,
             CASE Trace[i].op = "musig" -> LET e == Trace[i]  ses == SesOf(e)  psigs == [j \in 1..Len(e.psigs) |-> N(e.psigs[j])] IN
                      <<ses.ok, ToHex(XBytes(K1, ses.Q.x)), [j \in 1..Len(psigs) |-> PartialVerify(K1, S256, Pks(e), ses, psigs[j], Nonces(e)[j], Pks(e)[j])],
                        PartialAgg(K1, ses, psigs)>>
+              [] Trace[i].op = "psbtmusig" -> LET e == Trace[i]  ses == PsbtSes(e)  psigs == [j \in 1..Len(e.psigs) |-> N(e.psigs[j])] IN
+                     <<ToHex(CBytes(K1, KeyAgg(K1, S256, Pks(e)).Q)), ses.ok, ToHex(XBytes(K1, ses.Q.x)),
+                       [j \in 1..Len(psigs) |-> PartialVerify(K1, S256, Pks(e), ses, psigs[j], Nonces(e)[j], Pks(e)[j])], PartialAgg(K1, ses, psigs)>>
+              [] Trace[i].op = "ring" -> RingOut(Trace[i])
+              [] Trace[i].op = "commit" -> Commit(K1, S256, N(Trace[i].r), N(Trace[i].v))
               [] Trace[i].op = "spsend" -> LET e == Trace[i] IN
                      [j \in 1..Len(e.rs) |-> ToHex(SenderOutputs([q \in 1..Len(e.inputs) |-> [d |-> N(e.inputs[q].d), taproot |-> e.inputs[q].taproot]],
                                                                   [q \in 1..Len(e.outpoints) |-> HX(e.outpoints[q])], RsOf(e))[j])]
